@@ -84,6 +84,34 @@ fn cases(thorough: bool) -> Vec<Case> {
     for op in ["&", "|", "^", "==", "!="] {
         add(&format!("bool {op}"), &format!("{{0}} {op} {{1}}"), vec![p("bool", "true"), p("bool", "false")], None);
     }
+    // prefix operators on the operands (a rewriting of `-a + b`, `a + -b`, `!a == b` ... into another
+    // operator must keep the operands where they are), around the whole operation, and twice
+    for op in ["+", "-", "*", "/", "%", "&", "|", "^", "==", "!=", "<", "<=", ">", ">=", "**", "<<", ">>"] {
+        let right_too = !["**", "<<", ">>"].contains(&op);
+        for pre in ["-", "!"] {
+            add(&format!("int {pre}a {op} b"), &format!("{pre}{{0}} {op} {{1}}"), vec![p("int", "6"), p("int", "2")], None);
+            add(&format!("int {pre}{pre}a {op} b"), &format!("{pre}({pre}{{0}}) {op} {{1}}"), vec![p("int", "6"), p("int", "2")], None);
+            if pre == "!" || !["==", "!=", "<", "<=", ">", ">="].contains(&op) {
+                add(&format!("int {pre}(a {op} b)"), &format!("{pre}({{0}} {op} {{1}})"), vec![p("int", "6"), p("int", "2")], None);
+            }
+            if right_too {
+                add(&format!("int a {op} {pre}b"), &format!("{{0}} {op} {pre}{{1}}"), vec![p("int", "6"), p("int", "2")], None);
+                add(&format!("int {pre}a {op} {pre}b"), &format!("{pre}{{0}} {op} {pre}{{1}}"), vec![p("int", "6"), p("int", "2")], None);
+            }
+        }
+        add(&format!("int *a {op} *b"), &format!("*{{0}} {op} *{{1}}"), vec![p("cell", "mut 6"), p("cell", "mut 2")], None);
+        add(&format!("int 0 - a {op} b"), &format!("0 - {{0}} {op} {{1}}"), vec![p("int", "6"), p("int", "2")], None);
+    }
+    for op in ["&", "|", "^", "==", "!="] {
+        add(&format!("bool !a {op} b"), &format!("!{{0}} {op} {{1}}"), vec![p("bool", "true"), p("bool", "false")], None);
+        add(&format!("bool a {op} !b"), &format!("{{0}} {op} !{{1}}"), vec![p("bool", "true"), p("bool", "false")], None);
+        add(&format!("bool !a {op} !b"), &format!("!{{0}} {op} !{{1}}"), vec![p("bool", "true"), p("bool", "false")], None);
+        add(&format!("bool !(a {op} b)"), &format!("!({{0}} {op} {{1}})"), vec![p("bool", "true"), p("bool", "false")], None);
+    }
+    add("bool !a && !b", "!{0} && !{1}", vec![p("bool", "false"), p("bool", "false")], None);
+    add("bool !a || !b", "!{0} || !{1}", vec![p("bool", "true"), p("bool", "true")], None);
+    add("bool !(a && b)", "!({0} && {1})", vec![p("bool", "true"), p("bool", "true")], None);
+    add("bool !(a || b)", "!({0} || {1})", vec![p("bool", "false"), p("bool", "false")], None);
     add("string +", "{0} + {1}", vec![p("str", "\"a\""), p("str", "\"b\"")], None);
     add("array +", "{0} + {1}", vec![p("arr", "[1]"), p("arr", "[2]")], None);
     add("array ==", "{0} == {1}", vec![p("arr", "[1]"), p("arr", "[2]")], None);
